@@ -112,3 +112,35 @@ func govcHessenberg(n int, real bool) {
 
 func GovcHessenbergDense3() { govcHessenberg(3, false) }
 func GovcHessenbergReal3()  { govcHessenberg(3, true) }
+
+// in-situ buffers re-used for a second call
+func govcHessenbergReuse(n int) {
+  inSitu := &InSitu{}
+  first := NullDenseFloat64Matrix(n, n)
+  for i := 0; i < n; i++ {
+    for j := 0; j < n; j++ {
+      first.At(i, j).SetFloat64(float64(1 + i + 2*j + 3*((i+1)*(j+1)%2)))
+    }
+  }
+  if _, _, err := Run(first, ComputeU{true}, inSitu); err != nil {
+    govcCheck("no-error(first)", false)
+    return
+  }
+  a, a0 := govcSymMat(n, n, false, false)
+  h, u, err := Run(a, ComputeU{true}, inSitu)
+  if err != nil {
+    govcCheck("no-error", false)
+    return
+  }
+  hv, _, _ := govcGet(h)
+  uv, _, _ := govcGet(u)
+  govcOrthonormalCols("U'U=I", uv, n, n)
+  for i := 0; i < n; i++ {
+    for j := 0; j+1 < i; j++ {
+      govcCheckEq(fmt.Sprintf("H-hessenberg[%d,%d]", i, j), hv[i*n+j], 0.0)
+    }
+  }
+  govcEqMat("UH=AU", govcMul(uv, n, n, hv, n), govcMul(a0, n, n, uv, n), n, n)
+}
+
+func GovcHessenbergReuse3() { govcHessenbergReuse(3) }
